@@ -72,6 +72,13 @@ Proof. exact GuardsProofs.addbit_guard_refuted. Qed.
 Theorem addbit_guard_partial : forall bitnum numbits, is_int bitnum -> is_int numbits -> bitnum + numbits <= INT_MAX ->
   fst (addbit_guard bitnum numbits) = true -> 0 <= bitnum /\ 1 <= numbits /\ bitnum + numbits <= 64.
 Proof. exact GuardsProofs.addbit_guard_partial. Qed.
+Theorem addbit_guard_sub_sound : forall bitnum numbits, is_int bitnum -> is_int numbits ->
+  fst (addbit_guard_f BitSub bitnum numbits) = true -> 0 <= bitnum /\ 1 <= numbits /\ bitnum + numbits <= 64.
+Proof. exact GuardsProofs.addbit_sub_sound. Qed.
+Theorem addbit_guard_as_built : forall bitnum numbits, is_int bitnum -> is_int numbits ->
+  (addbit_form = BitSub \/ bitnum + numbits <= INT_MAX) ->
+  fst (addbit_guard_f addbit_form bitnum numbits) = true -> 0 <= bitnum /\ 1 <= numbits /\ bitnum + numbits <= 64.
+Proof. exact GuardsProofs.addbit_as_built. Qed.
 Theorem fragment_guard_sound : forall i n, fragment_guard i n = true -> 0 <= i < n.
 Proof. exact GuardsProofs.fragment_guard_sound. Qed.
 
